@@ -279,6 +279,8 @@ pub struct World {
     tracks: RefCell<HashMap<usize, ManuallyDrop<loom::alloc::Track<()>>>>,
     raws: RefCell<HashMap<usize, *mut u8>>,
     pub futures: Vec<crate::extras::FutureState>,
+    /// waker clones held by threads: (loom thread, future) ↦ waker
+    pub held: RefCell<HashMap<(usize, usize), std::task::Waker>>,
 }
 
 impl World {
@@ -320,6 +322,7 @@ impl World {
             tracks: Default::default(),
             raws: Default::default(),
             futures,
+            held: Default::default(),
         }
     }
 
@@ -335,9 +338,9 @@ impl World {
         let a = unsafe { &*self.atoms[x].as_ptr() };
         a.op(&Op::Fetch(x, Fetch::Add, v, Ordering::Relaxed));
     }
-    pub fn atomic_load_acq(&self, x: usize) -> i128 {
+    pub fn atomic_load_ord(&self, x: usize, o: Ordering) -> i128 {
         let a = unsafe { &*self.atoms[x].as_ptr() };
-        match a.op(&Op::Ld(x, Ordering::Acquire)) {
+        match a.op(&Op::Ld(x, o)) {
             Ret::Val(v) => v,
             _ => unreachable!(),
         }
@@ -708,7 +711,7 @@ fn exec_op(w: &Rc<World>, tid: usize, op: &Op) -> Ret {
         Op::Tls(_) | Op::TlsTry(_) | Op::Lazy(_) | Op::TlsNest(..) | Op::TlsStat(_) | Op::TlsObs(_) | Op::LazyStat(_) => {
             crate::extras::tls_op(op)
         }
-        Op::BlockOn(..) | Op::Wake(_) | Op::WakeRef(_) | Op::DropWaker(_) | Op::AwWake(_) => {
+        Op::BlockOn(..) | Op::Wake(_) | Op::WakeRef(_) | Op::DropWaker(_) | Op::AwWake(_) | Op::WakeQ(_) | Op::AwTake(_) | Op::WClone(_) | Op::WakeH(_) => {
             crate::extras::future_op(w, op)
         }
         Op::Stop => {
